@@ -12,7 +12,9 @@
 //!
 //!   op : path run|sess <root> <destform> <loc-hex> <ans> <outcome>
 //!   obs: ok <diff after open> ; <diff at the end>   |   ERR <diff>
-//! Oracle (the property): every entry of every diff lies strictly below <root>/dest.
+//! Oracle (the property): every entry of every diff lies strictly below the destination directory (<root>/dest, or the empty
+//! <root>/solo/deep/dest2 for the spellings `emptyrel` / `symdest`).  `sess` ops announce Content-MD5 with the check enabled:
+//! classes C03:corrupt-file-kept (a corrupted data packet, yet a file is left) and C03:delivered-bytes-differ serve C03.
 //! The diffs are SORTED SETS; inside dest they are compared exactly on purpose (the theorems of Props/C05.lean describe them,
 //! see props.d/C05.json `note`).  `HARNESS-ERR ...` = trouble of the harness itself: never printed by the model, never an
 //! oracle class.
@@ -165,6 +167,14 @@ fn root_ok(root: &str) -> bool {
 
 /// infrastructure trouble of the harness itself (disk full, too many open files, the FDT byte patch does not find its
 /// placeholder ...): a LOUD token the model never prints, and never an oracle failure of the property
+/// the destination directory of a dest spelling, relative to the sandbox root
+fn dest_prefix(form: &str) -> &'static str {
+    match form {
+        "emptyrel" | "symdest" => "solo/deep/dest2/",
+        _ => "dest/",
+    }
+}
+
 fn harness_err(what: &str) -> String {
     format!("HARNESS-ERR {}", what.replace(['\n', '\t'], " "))
 }
@@ -173,6 +183,9 @@ fn make_sandbox(root: &Path) -> std::io::Result<()> {
     std::fs::remove_dir_all(root).ok();
     std::fs::create_dir_all(root.join("outer/sub"))?;
     std::fs::create_dir_all(root.join("dest/sub"))?;
+    // an empty destination directory below two otherwise empty ancestors, and a symbolic link to it
+    std::fs::create_dir_all(root.join("solo/deep/dest2"))?;
+    std::os::unix::fs::symlink("solo/deep/dest2", root.join("link"))?;
     std::fs::write(root.join("top.txt"), b"canary top")?;
     std::fs::write(root.join("outer/canary.txt"), b"canary outer")?;
     std::fs::write(root.join("outer/sub/deep.txt"), b"canary deep")?;
@@ -379,6 +392,9 @@ fn run_one(mode: &str, root_s: &str, form: &str, loc: &str, outcome: &str, o: &m
         "dotdot" => (Some(root.join("dest/sub")), PathBuf::from("..")),
         "dotsdot" => (Some(root.join("dest")), PathBuf::from("./.")),
         "subup" => (Some(root.join("dest")), PathBuf::from("sub/..")),
+        // the EMPTY destination solo/deep/dest2: relative spelling / spelled through the symlink <root>/link
+        "emptyrel" => (Some(root.clone()), PathBuf::from("solo/deep/dest2")),
+        "symdest" => (None, root.join("link")),
         _ => return "bad-op".to_string(),
     };
     if let Some(c) = &cwd {
@@ -401,7 +417,7 @@ fn run_one(mode: &str, root_s: &str, form: &str, loc: &str, outcome: &str, o: &m
     let mut reported: Vec<(&str, &Vec<u8>)> = Vec::new();
     for (k, p) in d_open.iter().chain(d_end.iter()) {
         let shown = show_path(rootb, p);
-        if !shown.starts_with("dest/") && !reported.contains(&(*k, p)) {
+        if !shown.starts_with(dest_prefix(form)) && !reported.contains(&(*k, p)) {
             reported.push((*k, p));
             let class = match *k {
                 "+d" => "escape-mkdir",
@@ -410,7 +426,24 @@ fn run_one(mode: &str, root_s: &str, form: &str, loc: &str, outcome: &str, o: &m
                 "-f" | "-d" => "escape-remove",
                 _ => "escape-other",
             };
-            o.fail(class, &format!("location {:?} ({}, {}): {} {} is outside dest/", loc, mode, outcome, k, shown));
+            o.fail(class, &format!("location {:?} ({}, {}): {} {} is outside the destination directory", loc, mode, outcome, k, shown));
+        }
+    }
+    // ---- C03 through the FILE-SYSTEM writer (sessions announce Content-MD5, the builder enables the check) ----------
+    if mode == "sess" && res.is_ok() && st.open_ok == Some(true) {
+        let written: Vec<&Vec<u8>> = d_end.iter().filter(|(k, _)| *k == "+f" || *k == "~f").map(|(_, p)| p).collect();
+        if outcome == "error" {
+            // one payload byte was flipped: the MD5 check must fail the object and the writer removes its file
+            for p in &written {
+                o.fail("C03:corrupt-file-kept", &format!("location {:?}: a data packet was corrupted (Content-MD5 announced, check enabled) but {} is left on disk", loc, show_path(rootb, p)));
+            }
+        } else if outcome == "complete" {
+            for p in &written {
+                let got = std::fs::read(PathBuf::from(std::ffi::OsStr::from_bytes(p))).unwrap_or_default();
+                if got != vec![PAYLOAD_BYTE; 3000] {
+                    o.fail("C03:delivered-bytes-differ", &format!("location {:?}: {} holds {} bytes that are not the object", loc, show_path(rootb, p), got.len()));
+                }
+            }
         }
     }
     match res {
@@ -533,6 +566,9 @@ fn run_seq(root_s: &str, form: &str, toks: &str, o: &mut Oracle) -> String {
         "dotdot" => (Some(root.join("dest/sub")), PathBuf::from("..")),
         "dotsdot" => (Some(root.join("dest")), PathBuf::from("./.")),
         "subup" => (Some(root.join("dest")), PathBuf::from("sub/..")),
+        // the EMPTY destination solo/deep/dest2: relative spelling / spelled through the symlink <root>/link
+        "emptyrel" => (Some(root.clone()), PathBuf::from("solo/deep/dest2")),
+        "symdest" => (None, root.join("link")),
         _ => return "bad-op".to_string(),
     };
     if let Some(c) = &cwd {
@@ -627,7 +663,7 @@ fn run_seq(root_s: &str, form: &str, toks: &str, o: &mut Oracle) -> String {
         let d = diff(&before, &after);
         for (k, p) in d.iter() {
             let shown = show_path(rootb, p);
-            if !shown.starts_with("dest/") {
+            if !shown.starts_with(dest_prefix(form)) {
                 let class = match *k {
                     "+d" => "escape-mkdir",
                     "+f" => "escape-create",
@@ -635,7 +671,7 @@ fn run_seq(root_s: &str, form: &str, toks: &str, o: &mut Oracle) -> String {
                     "-f" | "-d" => "escape-remove",
                     _ => "escape-other",
                 };
-                o.fail(class, &format!("history {}: call {} : {} {} is outside dest/", toks, tok, k, shown));
+                o.fail(class, &format!("history {}: call {} : {} {} is outside the destination directory", toks, tok, k, shown));
             }
         }
         // a file that is empty before and after shows no truncation in (length, mtime) reliably: only report
@@ -945,7 +981,7 @@ pub fn run(ctx: &mut Ctx, _eng: &mut dyn Engine) {
     ctx.rule = format!(
         "every Content-Location = prefix (9 kinds of the property text) + up to {} segments from the 8 kinds, enumerated exhaustively, x \
          {{complete, error, interrupted}} (depth 5: one of the three per location, in rotation), dest spelled abs|slash|dots in rotation; structured escape attempts (prefix x lead x 0..5 climbs of 4 spellings x 8 targets), once with dest spelled abs|slash|dots and once with dest spelled by dots only (. | .. | ./. | sub/.. relative to the dest directory or a child); {} seeded random strings over a larger token set; \
-         histories (2 writers x 6 colliding/nested locations x every sequence of 3 (quick) / 4 (thorough) calls from {{open, complete, error}} on either writer, plus seeded longer histories with up to 3 writers, 20 locations, all five calls, any order; all nine dest spellings (absolute, relative, dots only)); a relative-dest phase; {} full Sender->Receiver sessions; each against the real ObjectWriterFSBuilder in a \
+         histories (2 writers x 6 colliding/nested locations x every sequence of 3 (quick) / 4 (thorough) calls from {{open, complete, error}} on either writer, plus seeded longer histories with up to 3 writers, 20 locations, all five calls, any order; all eleven dest spellings (absolute, relative, dots only, an empty dest spelled relatively / through a symlink)); a relative-dest phase; {} full Sender->Receiver sessions; each against the real ObjectWriterFSBuilder in a \
          fresh sandbox, tree snapshot before / after open / at the end vs the Lean model's predicted effects; oracle = every effect strictly \
          below dest/; non-trivial = the op had a filesystem effect or the location has a non-Normal component after the strip \
          (distinct by mode, dest spelling, location, outcome)",
@@ -1082,6 +1118,50 @@ pub fn run(ctx: &mut Ctx, _eng: &mut dyn Engine) {
     let res = execute(&jobs, workers);
     record(ctx, &jobs, res);
 
+    // 1b''. (i) an EMPTY destination directory spelled relatively / through a symlink, objects that fail: the destination
+    //       directory itself and its (otherwise empty) ancestors must survive the clean-up of `error`;
+    //       (ii) locations with a QUERY / FRAGMENT full of `/../` (the writer must ignore them or keep them inside dest)
+    ctx.case("empty-dest-and-query");
+    let mut jobs: Vec<Job> = Vec::new();
+    for f in ["emptyrel", "symdest"] {
+        for loc in ["x", "a/b/x", "file:///hello", "http://h/a/b.txt", "a/b/", "../x", "http://h/seg.m4s?rep=1"] {
+            for oc in outcomes.iter() {
+                let root = root_for(idx);
+                jobs.push(mk_job("run", &root, f, loc, oc, "empty-dest"));
+                idx += 1;
+            }
+        }
+    }
+    let qforms = ["abs", "slash", "dots", "rel", "reldot", "dot", "dotdot", "dotsdot", "subup", "emptyrel", "symdest"];
+    let mut k = 0usize;
+    for base in ["http://h/seg.m4s", "http://h/a/seg.m4s", "file:///vq7n", "x:vq7n", "x:/a/b", "https://h/old.txt", "http://h/sub/in.txt"] {
+        for sep in ["?", "#", "?q=1#", "?/", "#/"] {
+            for ups in 1..=6usize {
+                let root = root_for(idx);
+                let targets = [
+                    "top.txt".to_string(),
+                    "outer/canary.txt".to_string(),
+                    "vq7n".to_string(),
+                    format!("{}/top.txt", &root[1..]),
+                    "dest/old.txt".to_string(),
+                ];
+                let mut loc = format!("{}{}", base, sep);
+                if !sep.ends_with('/') {
+                    loc.push('/');
+                }
+                for _ in 0..ups {
+                    loc.push_str("../");
+                }
+                loc.push_str(&targets[k % targets.len()]);
+                jobs.push(mk_job("run", &root, qforms[k % qforms.len()], &loc, outcomes[(k / 2) % 3], "query"));
+                idx += 1;
+                k += 1;
+            }
+        }
+    }
+    let res = execute(&jobs, workers);
+    record(ctx, &jobs, res);
+
     // 1c. histories: several writers of one builder in one sandbox, colliding / nested locations, calls in any
     //     order (protocol-conforming or not)
     ctx.case("histories");
@@ -1093,7 +1173,7 @@ pub fn run(ctx: &mut Ctx, _eng: &mut dyn Engine) {
         "a:../x", "http://h/p/q", "x/y/z", "sub/../../outer/canary.txt", "",
     ];
     let calls6 = ["0o", "0c", "0e", "1o", "1c", "1e"];
-    let all_forms = ["abs", "slash", "dots", "rel", "reldot", "dot", "dotdot", "dotsdot", "subup"];
+    let all_forms = ["abs", "slash", "dots", "rel", "reldot", "dot", "dotdot", "dotsdot", "subup", "emptyrel", "symdest"];
     let newtok = |loc: &str| format!("n={}={}", hex(loc.as_bytes()), url_ans(loc));
     let mut hops: Vec<String> = Vec::new();
     let mut k = 0usize;
